@@ -754,6 +754,55 @@ func (e *emitter) c10EffectLists(s *source) {
 	e.c10EffDef("cancelEffects", "`cancel` (the function handed to `once`): record the error, THEN drain the source, THEN finish", func() []ast.Stmt {
 		return litArgOf(mr(), "once").Body.List
 	}, s)
+	// round 5b: HOW the cancel closure is made: wrapped into once(…) (idempotent after the first call) or bare
+	e.printf("/-- how a closure is made: handed to `once(…)` (runs for the first call only) or used as it is -/\ninductive Wrap\n  | onceOf (body : List Eff)\n  | bare (body : List Eff)\n  | other (src : String)\n  deriving DecidableEq, Repr\n\n")
+	e.c10Def("cancelDef", "the definition of `cancel` in mapReduceWithPanicChan", "", "Wrap", func() string {
+		for _, st := range mr().Body.List {
+			a, ok := st.(*ast.AssignStmt)
+			if !ok || len(a.Lhs) != 1 || len(a.Rhs) != 1 || s.src(a.Lhs[0]) != "cancel" {
+				continue
+			}
+			if c, ok := a.Rhs[0].(*ast.CallExpr); ok && len(c.Args) == 1 {
+				if l, ok := c.Args[0].(*ast.FuncLit); ok && s.src(c.Fun) == "once" {
+					return ".onceOf [" + strings.Join(s.c10Effects(l.Body.List), ", ") + "]"
+				}
+			}
+			if l, ok := a.Rhs[0].(*ast.FuncLit); ok {
+				return ".bare [" + strings.Join(s.c10Effects(l.Body.List), ", ") + "]"
+			}
+			return ".other " + leanStr(s.src(a.Rhs[0]))
+		}
+		c10Failf("cancel := … not found")
+		return ""
+	})
+	e.c10Def("onceIsSyncOnce", "`once(fn)` = a fresh sync.Once per call of `once`, the returned function runs `fn(err)` under `once.Do`", "", "Bool", func() string {
+		fd := s.findFunc(f, "once")
+		if fd == nil || len(fd.Body.List) != 2 {
+			return "false"
+		}
+		ok := s.src(fd.Body.List[0]) == "once := new(sync.Once)"
+		r, isRet := fd.Body.List[1].(*ast.ReturnStmt)
+		if !isRet || len(r.Results) != 1 {
+			return "false"
+		}
+		l, isLit := r.Results[0].(*ast.FuncLit)
+		if !isLit || len(l.Body.List) != 1 {
+			return "false"
+		}
+		es, isE := l.Body.List[0].(*ast.ExprStmt)
+		if !isE {
+			return "false"
+		}
+		c, isC := es.X.(*ast.CallExpr)
+		if !isC || s.src(c.Fun) != "once.Do" || len(c.Args) != 1 {
+			return "false"
+		}
+		in, isIn := c.Args[0].(*ast.FuncLit)
+		if !isIn || len(in.Body.List) != 1 || s.src(in.Body.List[0]) != "fn(err)" || !ok {
+			return "false"
+		}
+		return "true"
+	})
 	e.c10EffDef("finishEffects", "`finish` (under closeOnce): close(done), then close(output)", func() []ast.Stmt {
 		var fin *ast.FuncLit
 		for _, st := range mr().Body.List {
